@@ -434,6 +434,10 @@ def check_C16(tier, seed):
     run.cov['build_variants'] = ['default'] + [v[0] for v in variants]
     finish_stats(run, st, 'the PACK and RT (unpack/check/size/pack/stream/reparse) case streams run against builds {default, -DWORDS_BIGENDIAN, '
                           '-DNDEBUG, -O0, -O2, clang}; every build must print what the extracted model prints; distinct = distinct case lines')
+    # schema-level options: the same schemas compiled with gen_init_helpers=false / CODE_SIZE / c_package ... must
+    # give the same descriptors (names aside) and the same initial state: generator tie + initial-state oracle
+    import gencheck
+    run.cov['generator_tie'] = gencheck.generator_part(run, 'C16', tier, seed, n_quick=40, n_thorough=400)
     return conclude(run, gate, obl)
 
 
@@ -769,14 +773,15 @@ def check_C04(tier, seed, pid='C04'):
     gate, obl = gate_and_ties(run, ctx, pid, seed, tier)
     rnd = random.Random(seed * 1000003 + (4 if pid == 'C04' else 10))
     st = Stats()
-    envs = envs_for(rnd, tier, 14, 120)
+    envs = envs_for(rnd, tier, 14, 120, oneof_defaults=True)
     per_env = 40 if tier == 'quick' else 120
     tally = {'cases': 0, 'c_equals_reference': 0, 'equals_original': 0}
     split = pid == 'C10'
-    for env in envs:
+    ncorner = len(casegen.corner_envs())
+    for ei, env in enumerate(envs):
         st.schemas += 1
         lines, origs, hasunk = [], [], []
-        for _ in range(per_env):
+        for _ in range(per_env * (6 if ei < ncorner else 1)):      # the hand-made schemas carry the rare shapes
             d = rnd.randrange(len(env.msgs))
             m = casegen.gen_msg(rnd, env, d, canon=True)
             bs, o = valid_variant(rnd, env, m, split=split)
